@@ -106,6 +106,35 @@ func runC06(ctx *Ctx) *Report {
 			cases = append(cases, c)
 		}
 	}
+	// large shapes (a 300-byte name is refused by the OS: reported, nothing existing changes)
+	for bi, name := range []string{"deep", "wide", "many-roots", "long-names"} {
+		f := bigShapes()[name]
+		doc := spell(f, plainSpelling)
+		c := newCase("mkdir")
+		c.Doc, c.DocText, c.Exts, c.Target, c.Note = hx(doc), "<"+name+">", extLists[(bi+1)%len(extLists)], "t", "big:"+name
+		cases = append(cases, c)
+		if len(f) == 1 {
+			c.FromRoot, c.Tree, c.Doc = true, f[0].Enc(), ""
+			cases = append(cases, c)
+		}
+	}
+	// the target directory as the caller spelled it
+	for ti, tgt := range []string{"t/", "./t", "t/../t", "t//", "./t/.", "a/./b/../b/t", "t/./"} {
+		for fi, f := range forests {
+			if (fi+ti)%97 != 0 || !distinctRoots(f) {
+				continue
+			}
+			doc := spell(f, plainSpelling)
+			c := newCase("mkdir")
+			c.Doc, c.DocText, c.Exts, c.Target, c.RawTgt, c.Tree = hx(doc), docText(doc), extLists[(fi+ti)%len(extLists)], tgt, true, encForest(f)
+			c.Pre = []FSEntry{{"a", "d"}, {"a/b", "d"}}
+			cases = append(cases, c)
+			c2 := c
+			c2.Kind, c2.Strict = "verify", ti%2 == 0
+			c2.Pre = []FSEntry{{"a", "d"}, {"a/b", "d"}, {"t", "d"}, {"t/" + f[0].Name, "d"}, {"a/b/t", "d"}, {"a/b/t/" + f[0].Name, "d"}}
+			cases = append(cases, c2)
+		}
+	}
 	// "nothing that existed before has changed", whatever the names: paths that would resolve onto existing
 	// entries (a `..` or `.` element below a root) with files and directories already there
 	for hi, doc := range []string{
@@ -433,6 +462,12 @@ func runC08(ctx *Ctx) *Report {
 		c.Doc, c.DocText, c.Exts, c.Target = hx(doc), docText(doc), extLists[k%len(extLists)], "t"
 		rels = append(rels, c)
 	}
+	for _, name := range []string{"deep", "wide", "many-roots"} {
+		doc := spell(bigShapes()[name], plainSpelling)
+		c := newCase("mkdir-then-verify")
+		c.Doc, c.DocText, c.Exts, c.Target = hx(doc), "<"+name+">", []string{".go"}, "t"
+		rels = append(rels, c)
+	}
 	parallel(rels, ctx.Workers, func(m *Model, c Case) {
 		diffs := runMkdirThenVerify(c)
 		rep.Record(c, caseKey(c), len(c.Doc) > 24, diffs)
@@ -516,6 +551,18 @@ func runC09(ctx *Ctx) *Report {
 			if i%8 == 0 {
 				r.Note = "cli"
 			}
+			rels = append(rels, r)
+		}
+	}
+	for _, name := range []string{"deep", "wide", "many-roots", "long-names"} {
+		f := bigShapes()[name]
+		doc := spell(f, plainSpelling)
+		c := newCase("out")
+		c.Mode, c.Doc, c.DocText, c.Exts, c.Tree = "iter-dry", hx(doc), "<"+name+">", []string{".go"}, ""
+		cases = append(cases, c)
+		if name != "long-names" {
+			r := newCase("dry-predicts-real")
+			r.Doc, r.DocText, r.Exts, r.Target = hx(doc), "<"+name+">", []string{".go"}, "t"
 			rels = append(rels, r)
 		}
 	}
